@@ -69,21 +69,46 @@ Pool == <<
   \* falsy defaults are defaults; constraint arguments are copied verbatim (negative, fractional)
   Field("bf",   WithDef(TScalar("bool"), VBool(FALSE)), TRUE),
   Field("i0",   WithDef(TScalarC("int64", VNil, <<Con(">=", VInt("-1")), Con("<", [t |-> "float64", s |-> "2.5"])>>), VInt("0")), FALSE),
-  Field("se",   AsNullable(WithDef(TString, VStr(""))), FALSE)
+  Field("se",   AsNullable(WithDef(TString, VStr(""))), FALSE),
+  \* references to constants that are not non-empty strings (see Fixed below): number held as an integer, falsy, other package
+  Field("rkv",  TRef("p", "KNum"), TRUE),
+  Field("rkz",  TRef("p", "KFalse"), FALSE),
+  Field("rku",  AsNullable(TRef("q", "KU8")), TRUE)
 >>
 NPool == Len(Pool)
 
 QSchema16 == SchemaOf("q", <<Obj("q", "QS", TStruct(<<Field("v", TString, TRUE), Field("k", TRef("q", "KQ"), TRUE)>>)),
                              Obj("q", "KQ", TConst("string", VStr("kq"))),
+                             Obj("q", "KU8", TConst("uint8", VInt("3"))),
                              Obj("q", "QEn", EnT),
                              Obj("q", "Target", TStruct(<<Field("t", TString, TRUE)>>)),
                              Obj("q", "Mode", TString)>>)
 \* CaseFields: fields whose names differ only in letter case are distinct fields, each covered exactly once
+\* Fixed: "the schema fixes the field's value" whatever the constant is and however the loaders hold it.  A constant is a
+\* scalar with a value; the value keeps the Go type the loader produced, which is not always the kind's own:
+\*   JSON Schema {"type": "number", "const": 2}   float64 holding int64 (bound to the real loader by the 'loaded' route)
+\*   types written in YAML pass configuration     the declared kind holding a Go int        (int32 holding int)
+\*   types built through the library / by passes  any kind holding int64 or float64        (uint8 holding int64, float32 holding float64)
+\* and it may be falsy (false, 0, "").  Each is referred to by a required field (directly, in the other package, through an
+\* alias) and written in place.
+VFloat(x) == [t |-> "float64", s |-> x]
+VGoInt(x) == [t |-> "int", s |-> x]
+Consts16 == <<Obj("p", "KNum", TConst("float64", VInt("2"))), Obj("p", "KI32", TConst("int32", VGoInt("5"))),
+              Obj("p", "KF32", TConst("float32", VFloat("1.5"))), Obj("p", "KF32Alias", TRef("p", "KF32")),
+              Obj("p", "KFalse", TConst("bool", VBool(FALSE))), Obj("p", "KZero", TConst("int64", VInt("0"))),
+              Obj("p", "KEmpty", TConst("string", VStr(""))), Obj("p", "KTrue", TConst("bool", VBool(TRUE))),
+              Obj("p", "Fixed", TStruct(<<Field("name", TString, TRUE),
+                                          Field("version", TRef("p", "KNum"), TRUE), Field("retries", TRef("q", "KU8"), TRUE),
+                                          Field("ratio", TRef("p", "KF32Alias"), TRUE), Field("level", TRef("p", "KI32"), TRUE),
+                                          Field("on", TRef("p", "KTrue"), TRUE), Field("off", TRef("p", "KFalse"), TRUE),
+                                          Field("zero", TRef("p", "KZero"), TRUE), Field("blank", TRef("p", "KEmpty"), TRUE),
+                                          Field("inNum", TConst("float64", VInt("2")), TRUE), Field("inU8", TConst("uint8", VInt("0")), TRUE),
+                                          Field("inOff", TConst("bool", VBool(FALSE)), TRUE), Field("inBlank", TConst("string", VStr("")), FALSE)>>))>>
 Support16 == <<Obj("p", "Other", OtherT), Obj("p", "En", EnT), Obj("p", "K", TConst("string", VStr("kv"))),
                Obj("p", "KAlias", TRef("p", "K")),
                Obj("p", "CaseFields", TStruct(<<Field("url", TString, TRUE), Field("URL", WithDef(TString, VStr("u")), FALSE),
                                                 Field("id", TScalar("int64"), TRUE), Field("Id", TRef("p", "Other"), FALSE),
-                                                Field("ID", TArray(TString), FALSE)>>))>>
+                                                Field("ID", TArray(TString), FALSE)>>))>> \o Consts16
 \* alias chains whose SECOND hop leaves the package, next to same-named objects of another kind in the starting package
 CrossPkg16 == <<Obj("p", "Datasource", TRef("p", "TargetAlias")), Obj("p", "TargetAlias", TRef("q", "Target")), Obj("p", "Target", TString),
                 Obj("p", "DisplayMode", TRef("p", "ModeAlias")), Obj("p", "ModeAlias", TRef("q", "Mode")),
